@@ -407,6 +407,10 @@ class Check:
         transcribes) is wrong; that is reported as a violation of the property with the
         TLC counterexample as the replay."""
         self.add_tlc(res, label)
+        if not res.ok and not res.violated:
+            # TLC stopped without naming a violated invariant/property: that is a broken model run
+            # (evaluation error, interrupted JVM, spec being edited), not evidence about the code.
+            raise MachineryError("TLC run '%s' failed without a property violation:\n%s" % (label, res.out[-2500:]))
         if not res.ok:
             self.violation("model:%s:%s" % (label, ",".join(res.violated) or "error"),
                            {"kind": "model", "label": label, "violated": res.violated},
